@@ -21,7 +21,7 @@ class Unsupported(Exception):
     pass
 
 
-_TOKEN = re.compile(r"\s*(--[^\n]*\n|'(?:[^']|'')*'|\|\||==|<=|>=|<>|!=|[(),?=*<>]|[A-Za-z_][A-Za-z_0-9]*|[0-9]+)")
+_TOKEN = re.compile(r"\s*(--[^\n]*\n|'(?:[^']|'')*'|\|\||==|<=|>=|<>|!=|:[A-Za-z_][A-Za-z_0-9]*|[(),?=*<>]|[A-Za-z_][A-Za-z_0-9]*|[0-9]+)")
 
 
 def tokenize(sql: str) -> List[str]:
@@ -61,6 +61,11 @@ class Parser:
         return tok
 
     def param(self):
+        """A positional `?` (numbered in textual order, as sqlite3 binds them) or a named `:name` placeholder (its name)."""
+        tok = self.raw()
+        if tok is not None and tok.startswith(":") and len(tok) > 1:
+            self.i += 1
+            return tok[1:]
         self.eat("?")
         self.nparam += 1
         return self.nparam - 1
